@@ -1,5 +1,6 @@
 """helpers shared by the geometric drivers (C01, C05, C06, C10, C11, C17, C18)"""
 import itertools
+import os
 import numpy as np
 import torch
 from torchphysics.problem.spaces import Points, Space
@@ -65,6 +66,20 @@ def space_order(a):
 
 def is_deliberate(e):
     """deliberate, message-carrying refusals of the library (answers, not alarms)"""
+    r = _is_deliberate(e)
+    if r and os.environ.get("TPMC_REJLOG"):
+        try:
+            with open(os.environ["TPMC_REJLOG"], "a") as fh:
+                import traceback
+                fr = [f for f in traceback.extract_tb(e.__traceback__) if "/torchphysics/" in f.filename]
+                chain = " < ".join("%s:%s" % (f.filename.split("/")[-1], f.name) for f in reversed(fr[-4:]))
+                fh.write("%s | %s | %s\n" % (type(e).__name__, chain, " ".join(str(e).split())[:160]))
+        except Exception:
+            pass
+    return r
+
+
+def _is_deliberate(e):
     if isinstance(e, NotImplementedError):
         return True
     if isinstance(e, ValueError) and "density" in str(e).lower():
